@@ -53,6 +53,7 @@ type Frame struct {
 	closure *Closure
 	top     *Frame
 	modRegions []modRegion
+	groups  []*Term // sync.Groups created in this frame (must be joined at every return)
 }
 
 type retRec struct {
@@ -82,15 +83,32 @@ type Exec struct {
 	pendingRegions []modRegion
 	freeOf    map[*Contract]map[string]freeBinding
 	meaningDone map[*ssa.Function]bool
+	bounds    map[string]*ssa.Function
+	boundIDs  map[types.Object]int
+	groupOf   map[*Term]*Term
+	cancelID  int
 }
 
 func newExec(w *World, specs *SpecDB) *Exec {
 	return &Exec{w: w, specs: specs, notes: map[string]bool{}, abstract: map[string]bool{}, assumed: map[string]bool{}, inlined: map[string]bool{},
-		cloEnv: map[*Term]*Closure{}, nameCount: map[string]int{}, freeOf: map[*Contract]map[string]freeBinding{}, meaningDone: map[*ssa.Function]bool{}, fnIDs: map[*ssa.Function]int{}, fnByID: []*ssa.Function{nil}}
+		cloEnv: map[*Term]*Closure{}, nameCount: map[string]int{}, freeOf: map[*Contract]map[string]freeBinding{}, meaningDone: map[*ssa.Function]bool{}, boundIDs: map[types.Object]int{}, groupOf: map[*Term]*Term{}, fnIDs: map[*ssa.Function]int{}, fnByID: []*ssa.Function{nil}}
 }
 
 func (x *Exec) fnID(fn *ssa.Function) int {
 	if id, ok := x.fnIDs[fn]; ok {
+		return id
+	}
+	// go/ssa creates a new bound-method wrapper at every method value expression; they are
+	// all the same function value: identify them by the method object.
+	if strings.HasSuffix(fn.Name(), "$bound") && fn.Object() != nil {
+		if id, ok := x.boundIDs[fn.Object()]; ok {
+			x.fnIDs[fn] = id
+			return id
+		}
+		id := len(x.fnByID)
+		x.boundIDs[fn.Object()] = id
+		x.fnIDs[fn] = id
+		x.fnByID = append(x.fnByID, fn)
 		return id
 	}
 	id := len(x.fnByID)
@@ -154,6 +172,13 @@ func (x *Exec) pos(ins ssa.Instruction) string {
 	}
 	p := x.w.Fset.Position(ins.Pos())
 	return fmt.Sprintf("%s:%d", shortFile(p.Filename), p.Line)
+}
+
+func framePrefix(fr *Frame) string {
+	if fr.parent == nil {
+		return ""
+	}
+	return relName(fr.fn) + ":"
 }
 
 func shortFile(f string) string {
@@ -772,6 +797,10 @@ func (x *Exec) doReturn(fr *Frame, st *State, ret *ssa.Return) {
 			val.Tup = append(val.Tup, x.get(fr, st, r))
 		}
 	}
+	for i, g := range fr.groups {
+		x.oblige(st, "join", fmt.Sprintf("group%d", i+1), fmt.Sprintf("%sret%d", framePrefix(fr), fr.info.Returns[ret]), Eq(gSel(st, "pending", g), Int(0)),
+			"every function started on a sync.Group created here has been waited for when the function returns")
+	}
 	fr.rets = append(fr.rets, retRec{st: st, val: val, ord: fr.info.Returns[ret]})
 }
 
@@ -868,8 +897,9 @@ func (x *Exec) step(fr *Frame, st *State, ins ssa.Instruction) {
 			clo.Binds = append(clo.Binds, x.get(fr, st, b))
 		}
 		var env *Term
-		if len(clo.Binds) == 1 && clo.Binds[0].T != nil && clo.Binds[0].T.Sort == "Int" && strings.HasSuffix(fn.Name(), "$bound") {
-			env = clo.Binds[0].T
+		if len(clo.Binds) == 1 && clo.Binds[0].T != nil && strings.HasSuffix(fn.Name(), "$bound") {
+			// a method value: the environment is the receiver itself (boxed if it is not a reference)
+			env = x.boundEnv(st, clo.Binds[0].T, fn.FreeVars[0].Type())
 		} else {
 			env = Fresh("env_"+fn.Name(), "Int")
 			x.cloEnv[env] = clo
@@ -1077,6 +1107,9 @@ func (x *Exec) closureOf(t *Term) *Closure {
 	if t.kind == kApp && t.Op == "mk_"+sortFn {
 		if n, ok := isLitInt(t.Args[0]); ok && n.IsInt64() && int(n.Int64()) < len(x.fnByID) && n.Int64() > 0 {
 			fn := x.fnByID[n.Int64()]
+			if fn == nil {
+				return nil
+			}
 			if c, ok := x.cloEnv[t.Args[1]]; ok {
 				return c
 			}
@@ -1084,7 +1117,11 @@ func (x *Exec) closureOf(t *Term) *Closure {
 				return &Closure{Fn: fn}
 			}
 			if len(fn.FreeVars) == 1 && strings.HasSuffix(fn.Name(), "$bound") {
-				return &Closure{Fn: fn, Binds: []Value{{T: t.Args[1]}}}
+				rt := fn.FreeVars[0].Type()
+				if sortOf(rt) == "Int" {
+					return &Closure{Fn: fn, Binds: []Value{{T: t.Args[1]}}}
+				}
+				return &Closure{Fn: fn, Binds: []Value{{T: UF("un"+boxName(rt), sortOf(rt), t.Args[1])}}}
 			}
 		}
 	}
@@ -1471,4 +1508,38 @@ func (x *Exec) frameInv(fr *Frame, st *State, k string) *Term {
 	}
 	return Forall([]*Term{r}, [][]*Term{{Select(h1, r)}},
 		Implies(And(Gt(r, Int(0)), Lt(r, top.entry.alloc), Not(in(r, nil))), Eq(Select(h1, r), Select(h0, r))))
+}
+
+// boundEnv encodes the receiver of a method value as the closure environment.
+func (x *Exec) boundEnv(st *State, recv *Term, rt types.Type) *Term {
+	if recv.Sort == "Int" {
+		return recv
+	}
+	if su, ok := rt.Underlying().(*types.Struct); ok && su.NumFields() == 0 {
+		return Int(0)
+	}
+	b := UF(boxName(rt), "Int", recv)
+	x.assume(st, Eq(UF("un"+boxName(rt), recv.Sort, b), recv))
+	return b
+}
+
+// boundMethods finds the bound-method wrapper functions ($bound) used anywhere in /repo.
+func (x *Exec) boundMethod(recvT types.Type, name string) *ssa.Function {
+	if x.bounds == nil {
+		x.bounds = map[string]*ssa.Function{}
+		for _, fn := range x.w.FuncList {
+			for _, b := range fn.Blocks {
+				for _, ins := range b.Instrs {
+					if mc, ok := ins.(*ssa.MakeClosure); ok {
+						f := mc.Fn.(*ssa.Function)
+						if strings.HasSuffix(f.Name(), "$bound") && len(f.FreeVars) == 1 {
+							k := types.TypeString(f.FreeVars[0].Type(), nil) + "." + strings.TrimSuffix(f.Name(), "$bound")
+							x.bounds[k] = f
+						}
+					}
+				}
+			}
+		}
+	}
+	return x.bounds[types.TypeString(recvT, nil)+"."+name]
 }
